@@ -596,6 +596,7 @@ pub fn execute(d: &ConcDesc, keep_trace: bool) -> RunResult {
     let mut out = sched::SimOutcome::default();
     let mut n_calls = 0u64;
     let mut n_solo = 0u64;
+    let mut fresh_pkg = false;
 
     if d.scenario == "stringbuf" {
         use crate::model::{Event, Heap, LOp, MVal, Obs};
@@ -746,6 +747,35 @@ pub fn execute(d: &ConcDesc, keep_trace: bool) -> RunResult {
                         }
                     }
                 }
+                // In half of the runs the simulated threads get a *fresh* package compiled from
+                // the same source by the same runtimes (so their first calls race on whatever a
+                // package sets up lazily); the reference package is dropped. Independently
+                // compiled packages must behave identically.
+                if d.run_seed % 2 == 0 {
+                    let (rts, old) = {
+                        let mut g = shared.lock().unwrap();
+                        (g.0.take(), g.1.take())
+                    };
+                    if let Some(rts) = rts {
+                        let (pkg, pkg2) = {
+                            let _cg = alloc::ModeGuard::new(alloc::MODE_COMPILE);
+                            (FileTree::test_file("corpus", &corpus(&d.params), 0).compile(&rts.0.0), FileTree::test_file("ctxcorpus", &ctx_corpus(&d.params), 0).compile(&rts.0.1))
+                        };
+                        match (pkg, pkg2) {
+                            (Ok(mut pkg), Ok(mut pkg2)) => match load(&mut pkg, &mut pkg2) {
+                                Ok(f) => {
+                                    *REENTER.lock().unwrap() = Some(f[0].clone());
+                                    fns = f;
+                                    *shared.lock().unwrap() = (Some(rts), Some(Sendable((pkg, pkg2))));
+                                    fresh_pkg = true;
+                                }
+                                Err(e) => viol::record("get-function-failed", e),
+                            },
+                            (Err(e), _) | (_, Err(e)) => viol::record("compile-failed", format!("second compilation of the corpus: {}", report_text(&e))),
+                        }
+                    }
+                    drop(old);
+                }
             }
         }
         if !viol::any() {
@@ -890,6 +920,7 @@ pub fn execute(d: &ConcDesc, keep_trace: bool) -> RunResult {
     c.insert(format!("strategy_{}", d.strategy.split('/').next().unwrap_or("")), 1);
     c.insert("calls_under_simulation".into(), n_calls);
     c.insert("solo_reference_calls".into(), n_solo);
+    c.insert("runs_with_fresh_package_for_the_threads".into(), fresh_pkg as u64);
     c.insert("background_compile_threads".into(), if d.scenario == "calls" { d.compilers.len() as u64 } else { 0 });
     c.insert("probe_reentrant_host_call".into(), P_REENTER_DEPTH.load(SeqCst));
     c.insert("probe_calls_overlapped".into(), P_CALLS_OVERLAPPED.load(SeqCst));
